@@ -104,7 +104,9 @@ def add(rep, ctx, replayer=None):
         on_target = origin(eng, p, st, exs[0].args[0]) == "p1"
         if isinstance(exs[0].ret, Bool):
             return z3.And(z3.BoolVal(on_target), z3.BoolVal(p.result.variant == "Err") == exs[0].ret.t)
-        return z3.BoolVal(on_target)
+        # a metadata query: whatever kind of entry it finds (file, directory, symlink, special file) counts as existing
+        found = z3.BitVec(mirsym.sanitize(exs[0].ret.name + "#d"), 64) == 0
+        return z3.And(z3.BoolVal(on_target), z3.BoolVal(p.result.variant == "Err") == found)
     o = oblig.check_paths(eng, ps, "FsCommand::check_can_rename: Err iff something exists at the target", cprop, oblig.fnames(eng), key="wrapper:check_can_rename")
     if o.verdict == "violated" and replayer:
         replayer(o, "check_can_rename")
